@@ -596,21 +596,15 @@ def mfSizes (v2 : Bool) (dict mf nice : Nat) : Nat × Nat × Nat :=
   let sons := if mfIsBt mf then (dict + 1) * 2 else dict + 1
   (size, hc, sons)
 
-mutual
-/-- `lzma_next_filter_init(next, allocator, filters)` over the (already reversed, for encoders) chain -/
-def nextFilterInit (enc : Bool) : List Filter → NodeOp
-  | [] => guard 0
-  | f :: rest => guard (filterInitId enc f) ⨟ filterInit enc f rest
-
-/-- the init function of one filter; `rest` = the filters after it -/
-def filterInit (enc : Bool) : Filter → List Filter → NodeOp
+/-- the init function of one filter; `rest` = `lzma_next_filter_init(&coder->next, allocator, filters + 1)` -/
+def filterInit (enc : Bool) : Filter → NodeOp → NodeOp
   | .delta _, rest =>
-    allocSelf S.delta skip ⨟ onSub0 (nextFilterInit enc rest)
+    allocSelf S.delta skip ⨟ onSub0 rest
   | .bcj w _, rest =>
     -- lzma_simple_coder_init: struct + 2*unfiltered_max; only x86 has a filter-specific struct
     let um := if w == 0 then 5 else if w == 2 then 16 else if w == 7 then 8 else 4
     allocSelf (S.simple + 2 * um) (if w == 0 then reallocBuf B_SIMPLE (some S.simpleX86) else skip)
-      ⨟ onSub0 (nextFilterInit enc rest)
+      ⨟ onSub0 rest
   | .lzma v2 dict mf nice _, rest =>
     if enc then
       let (size, hc, sons) := mfSizes S v2 dict mf nice
@@ -626,7 +620,7 @@ def filterInit (enc : Bool) : Filter → List Filter → NodeOp
       -- lz_encoder_init
       ⨟ ensureBuf B_BUFFER (some (size + S.memcmplenExtra))
       ⨟ whenD (fun n => (n.buf B_HASH).isNone) (allocPair B_HASH B_SON (some (hc * 4)) (some (sons * 4)))
-      ⨟ onSub0 (nextFilterInit enc rest)
+      ⨟ onSub0 rest
     else
       let asz := dictAllocSize S dict
       allocSelf S.lzDec skip
@@ -634,8 +628,12 @@ def filterInit (enc : Bool) : Filter → List Filter → NodeOp
       ⨟ ensureBuf B_DEC_LZMA1 (some S.lzma1Dec)
       ⨟ whenD (fun n => n.dat D_DICT_SIZE != asz)
             (reallocBuf B_DICT (some (asz + S.dictExtra)) (some (D_DICT_SIZE, 0)) ⨟ setData D_DICT_SIZE asz)
-      ⨟ onSub0 (nextFilterInit enc rest)
-end
+      ⨟ onSub0 rest
+
+/-- `lzma_next_filter_init(next, allocator, filters)` over the (already reversed, for encoders) chain -/
+def nextFilterInit (enc : Bool) : List Filter → NodeOp
+  | [] => guard 0
+  | f :: rest => guard (filterInitId enc f) ⨟ filterInit S enc f (nextFilterInit enc rest)
 
 /-- `lzma_raw_coder_init`: the chain is initialised in reverse order by the encoder; a failure ends the
     whole chain (`lzma_next_end`). -/
